@@ -7,11 +7,15 @@ implementation's outputs against the property.
 
 The body readers are not modelled: where the model's dispatch says "a body reader runs" both `P`
 (with exactly the frame consumed) and `M` are accepted from the implementation; for streams the
-model's `body` parameter is instantiated from what the implementation reported (the frame it
-rejected is rejected by `body`), so the comparison is exact.
+model's `body` parameter is instantiated from what the implementation's bare decoder answered per
+frame (`walk` section), so the comparison is exact. No failure shape is expected on the current
+/repo: the former b5 `unreachable!()` and the v5 `InsufficientBytes` on complete frames are repaired
+and reported like any other violation (`panic`, `needmore-on-complete-frame`,
+`chunking-dependent`) should they reappear.
 Import-free (Model + Driver.Common only).
 -/
 import Model.Frame
+import Model.FrameSpec
 import Driver.Common
 namespace Driver.FrameD
 open Driver Frame
@@ -88,7 +92,7 @@ def modelDec (c : Copy) (max : Limit) (bs : List UInt8) (wrong : Bool) : String 
   | .oversize _ => "L"
   | .frameIncomplete _ missing => s!"N {missing} 0"
   | .complete fh =>
-    match dispatch c fh.typeNibble fh.remainingLen with
+    match dispatch c fh.typeNibble fh.flags fh.remainingLen with
     | .reject => "M"
     | .unreachable => "X"
     | .accept => s!"P {fh.frameLen}"
@@ -125,7 +129,7 @@ def judgeDecS (c : Copy) (max : Limit) (bs : List UInt8) (sh shw : Shape) (out :
        else
          match shw with
          | .complete fh' =>
-           (match dispatch c fh'.typeNibble fh'.remainingLen with
+           (match dispatch c fh'.typeNibble fh'.flags fh'.remainingLen with
             | .accept => .ok
             | .read => .ok
             | _ => .diverge (model ()) out)
@@ -162,27 +166,20 @@ def judgeDecS (c : Copy) (max : Limit) (bs : List UInt8) (sh shw : Shape) (out :
     (match shw with
      | .badLength => .ok
      | .complete fh =>
-       (match dispatch c fh.typeNibble fh.remainingLen with
+       (match dispatch c fh.typeNibble fh.flags fh.remainingLen with
         | .reject => .ok
         | .read => .ok
-        | _ => .diverge (model ()) out)
+        | _ =>
+          -- C05.canonical_bodiless_accepted: here the model is the MQTT rule, so a different
+          -- answer is a wrong answer, not just a divergence
+          if fh.remainingLen = 0 && canonicalBodiless fh.byte1 then
+            .monitorFail "wrong-answer" s!"{d ()} rejected-canonical-bodiless-packet"
+          else .diverge (model ()) out)
      | _ => .diverge (model ()) out)
   | _ => .bad s!"unparsable outcome '{out}'"
 
 def judgeDec (c : Copy) (max : Limit) (bs : List UInt8) (out : String) (wrong : Bool) : Verdict :=
   judgeDecS c max bs (shape max bs) (shapeW wrong max bs) out wrong
-
-/-- does the as-is model (with `body` taken from the implementation) produce this outcome too?
-    True for the b5 `unreachable!()` and for `InsufficientBytes` leaked by a body reader. -/
-def modelExhibits (c : Copy) (sh : Shape) (out : String) : Bool :=
-  match sh with
-  | .complete fh =>
-    let d := dispatch c fh.typeNibble fh.remainingLen
-    match parseOutcome out with
-    | some ('X', _, _) => d == .unreachable
-    | some ('N', _, some k) => d == .read && k == fh.frameLen
-    | _ => false
-  | _ => false
 
 /-! streams -/
 
@@ -262,7 +259,7 @@ def judgeStream (c : Copy) (max : Limit) (k : Nat) (chunks : List (List UInt8)) 
       | .insuf n => some (fr.2, .insuf n)
       | .bad =>
         -- only a rejection by a body reader instantiates `body`
-        if dispatch c fr.1.typeNibble fr.1.remainingLen == .read then some (fr.2, .bad) else none)
+        if dispatch c fr.1.typeNibble fr.1.flags fr.1.remainingLen == .read then some (fr.2, .bad) else none)
     let swallowed := seen.filter (fun (_, s) => match s with | .insuf _ => true | _ => false)
     let swTypes := swallowed.map (fun (fr, _) => fr.1.typeNibble)
     -- (1) panic
@@ -281,19 +278,18 @@ def judgeStream (c : Copy) (max : Limit) (k : Nat) (chunks : List (List UInt8)) 
       let dependent := ra.1 ≠ rb.1 || normTerminal ra.2.2 ≠ normTerminal rb.2.2
       -- (2) the result must not depend on the chunking
       if dependent then
-        if explained && !swallowed.isEmpty then
-          .monitorFail "chunking-dependent" s!"copy={cn} explained-by=body-insufficient types={swTypes} chunked=[{a}] whole=[{b}]"
-        else
-          .monitorFail "chunking-dependent" s!"copy={cn} explained-by=nothing chunked=[{a}] whole=[{b}] model-chunked=[{showM ma}] model-whole=[{showM mb}]"
-      else if !explained then
-        .diverge s!"chunked: {showM ma} whole: {showM mb}" s!"chunked: {implA} whole: {implB}"
+        let cause := if swallowed.isEmpty then "cause=unknown" else s!"cause=insufficient-bytes-from-body types={swTypes}"
+        .monitorFail "chunking-dependent" s!"copy={cn} {cause} chunked=[{a}] whole=[{b}] model-chunked=[{showM ma}] model-whole=[{showM mb}]"
       else
-        -- (3) a wait for more bytes on a complete frame
+        -- (3) a wait for more bytes on a complete frame (seen by the bare decoder in this stream)
         match swallowed.head? with
         | some (fr, s) =>
           let n := match s with | .insuf n => n | _ => 0
           .monitorFail "needmore-on-complete-frame" s!"copy={cn} type={fr.1.typeNibble} remaining={fr.1.remainingLen} frame={fr.1.frameLen} state=complete asked={n} consumed={fr.1.frameLen} in-stream"
         | none =>
+        if !explained then
+          .diverge s!"chunked: {showM ma} whole: {showM mb}" s!"chunked: {implA} whole: {implB}"
+        else
         -- (4) every packet consumed exactly its frame (client tokens carry the consumed length)
         let okFrames := (seen.filter (fun (_, s) => s == .ok)).map (·.1.1)
         let consumedBad : Option String :=
@@ -319,7 +315,7 @@ def judgeStream (c : Copy) (max : Limit) (k : Nat) (chunks : List (List UInt8)) 
 def failKey (tag detail : String) : String :=
   let words := detail.splitOn " "
   let pick (pre : String) := (words.find? (·.startsWith pre)).getD ""
-  s!"{tag} {pick "copy="} {pick "type="} {pick "types="} {pick "explained-by="}"
+  s!"{tag} {pick "copy="} {pick "type="} {pick "types="} {pick "cause="}"
 
 /-- every distinct failure shape is reported at most this many times (the driver prints at most
     200 verdict lines in total; a frequent known shape must not crowd out a new one) -/
@@ -344,17 +340,13 @@ def stepV (wrong : Bool) (op : List String) (out : String) : Verdict :=
          | [o1, o2, o3, o4] =>
            let sh := shape max bs
            let shw := shapeW wrong max bs
-           -- one verdict per line. A failure that the as-is model exhibits too (the b5
-           -- `unreachable!`, a body reader's leaked InsufficientBytes) comes last, so that it
-           -- cannot hide another copy's anomaly on the same line.
+           -- one verdict per line: a monitor failure (the implementation violates the property)
+           -- before a divergence from the model
            let cs := [(Copy.c4, o1), (Copy.c5, o2), (Copy.b4, o3), (Copy.b5, o4)]
-           let tagged := cs.map (fun (c, o) => (judgeDecS c max bs sh shw o wrong, modelExhibits c sh o))
+           let vs := cs.map (fun (c, o) => judgeDecS c max bs sh shw o wrong)
            let isMF (v : Verdict) := match v with | .monitorFail _ _ => true | _ => false
            let isDv (v : Verdict) := match v with | .diverge _ _ => true | .bad _ => true | _ => false
-           let first (f : Verdict × Bool → Bool) := (tagged.find? f).map (·.1)
-           ((first (fun (v, e) => isMF v && !e)).orElse fun _ =>
-            (first (fun (v, _) => isDv v)).orElse fun _ =>
-            first (fun (v, _) => isMF v)).getD .ok
+           ((vs.find? isMF).orElse fun _ => vs.find? isDv).getD .ok
          | _ => .bad "expected four outcomes"
        else
          match parseCopy cp with
